@@ -433,6 +433,9 @@ func drvDotLocal(r *rand.Rand, n int) [][]Action {
 		for j := 0; j < k; j++ {
 			p := near[r.Intn(len(near))]
 			if p != L && r.Intn(3) == 0 && !dots[p] {
+				if r.Intn(3) == 0 && !bodyRefs(h, p) {
+					h = append(h, Action{A: "Anon", P: p}) // anonymous first, then declared a dot-import, then referenced
+				}
 				h = append(h, Action{A: "ImportAlias", P: p, N: "."})
 				dots[p] = true
 			}
